@@ -21,6 +21,13 @@
    A schedule is a list of thread ids; the step of a blocked / finished / unknown thread is a
    no-op.  Threads are numbered from 1 (0 is the value of ident.current when nobody is inside).
 
+   model_context_map is part of the machine's state: [reg ms m] is the model_context registered for model m
+   in machine state ms (None: no entry / empty entry, as after remove_model or before add_model), so
+   add_model / remove_model are ordinary machine methods whose effect on the map is part of [resume].
+   The map is read UNLOCKED together with ident.current (as in the code).  The ghost flag g_bad records
+   that a call left the envelope: it entered (not re-entrantly) with an empty context list (an event sent
+   to an unregistered model of a LockedMachine) or with a context object configured twice.
+
    Assumed, not modelled (the property is PARTIAL): threading.Lock behaves as the mutex below,
    get_ident() is constant per thread and never 0, attribute reads/writes are atomic (GIL).
    Definitions only. *)
@@ -41,33 +48,11 @@ Record call : Type := mkCall { c_kind : ckind; c_id : nat }.
 
 Record lcfg : Type := mkCfg {
   cfg_machine : list nat;                 (* machine_context: lock ids in configured order *)
-  cfg_models : list (nat * list nat);     (* model -> its model_context (lock ids, in order) *)
   cfg_hier : bool                         (* LockedHierarchicalMachine / ...GraphMachine *)
 }.
 
-Fixpoint lookup_ctx (l : list (nat * list nat)) (m : nat) : list nat :=
-  match l with
-  | [] => []
-  | (m', c) :: r => if Nat.eqb m m' then c else lookup_ctx r m
-  end.
-Definition cfg_model (cfg : lcfg) (m : nat) : list nat := lookup_ctx (cfg_models cfg) m.
-
 (* machine_context after __init__ appended the IdentManager *)
 Definition mctx (cfg : lcfg) : list ctx := map CLock (cfg_machine cfg) ++ [CIdent].
-
-(* what the code enters for a call *)
-Definition ctxs_of (cfg : lcfg) (c : call) : list ctx :=
-  match c_kind c with
-  | KMethod => mctx cfg
-  | KEvent m => if cfg_hier cfg then mctx cfg else mctx cfg ++ map CLock (cfg_model cfg m)
-  end.
-
-(* what the property demands to be held while the call is processed *)
-Definition ctxs_spec (cfg : lcfg) (c : call) : list ctx :=
-  match c_kind c with
-  | KMethod => mctx cfg
-  | KEvent m => mctx cfg ++ map CLock (cfg_model cfg m)
-  end.
 
 Fixpoint nodupb (l : list nat) : bool :=
   match l with
@@ -75,13 +60,16 @@ Fixpoint nodupb (l : list nat) : bool :=
   | x :: r => negb (existsb (Nat.eqb x) r) && nodupb r
   end.
 
-(* envelope: at least one machine context (always true of the code: the default is one
-   PicklableLock) and no context object configured twice for the same call (it would be
-   entered twice: self-deadlock of a non-re-entrant lock) *)
+Fixpoint ctx_nodupb (l : list ctx) : bool :=
+  match l with
+  | [] => true
+  | x :: r => negb (existsb (ctx_eqb x) r) && ctx_nodupb r
+  end.
+
+(* envelope of the static configuration: at least one machine context (always true of the code: the
+   default is one PicklableLock), none configured twice *)
 Definition wf_cfg (cfg : lcfg) : bool :=
-  negb (match cfg_machine cfg with [] => true | _ => false end)
-  && nodupb (cfg_machine cfg)
-  && forallb (fun mc => nodupb (cfg_machine cfg ++ snd mc)) (cfg_models cfg).
+  negb (match cfg_machine cfg with [] => true | _ => false end) && nodupb (cfg_machine cfg).
 
 Section Lock.
   Context {MS K R I : Type}.
@@ -94,6 +82,26 @@ Section Lock.
   Variable start : call -> K.
   Variable resume : K -> MS -> MS * list I * status.   (* one atomic segment *)
   Variable ret : K -> R -> K.                          (* hand a nested call's result to the caller *)
+  Variable reg : MS -> nat -> option (list nat).       (* model_context_map: model -> its model contexts *)
+
+  (* what the code enters for a call, given the machine state it reads the map from *)
+  Definition ctxs_of (cfg : lcfg) (ms : MS) (c : call) : list ctx :=
+    match c_kind c with
+    | KMethod => mctx cfg
+    | KEvent m =>
+        if cfg_hier cfg then mctx cfg
+        else match reg ms m with
+             | Some mc => mctx cfg ++ map CLock mc
+             | None => []                       (* defaultdict(list): no contexts at all *)
+             end
+    end.
+
+  (* what the property demands to be held while the call is processed *)
+  Definition ctxs_spec (cfg : lcfg) (ms : MS) (c : call) : list ctx :=
+    match c_kind c with
+    | KMethod => mctx cfg
+    | KEvent m => match reg ms m with Some mc => mctx cfg ++ map CLock mc | None => mctx cfg end
+    end.
 
   (* ------------------------------------------------------------------ sequential reference *)
   Inductive sres : Type :=
@@ -160,7 +168,8 @@ Section Lock.
   Record act : Type := mkAct {
     a_call : call;
     a_phase : phase;
-    a_held : list ctx             (* contexts entered by this activation, most recent first *)
+    a_held : list ctx;            (* contexts entered by this activation, most recent first *)
+    a_ctxs : list ctx             (* ghost: the context list this activation read when it started *)
   }.
 
   Record thread : Type := mkThread {
@@ -186,7 +195,8 @@ Section Lock.
     g_th : nat -> thread;
     g_log : list lev;             (* ghost, newest last *)
     g_acq : list (nat * call);    (* ghost: top-level calls in order of their first acquisition *)
-    g_done : list dentry          (* ghost: completed top-level calls, in order of completion *)
+    g_done : list dentry;         (* ghost: completed top-level calls, in order of completion *)
+    g_bad : bool                  (* ghost: some call left the envelope (see header) *)
   }.
 
   Definition upd {A} (f : nat -> A) (k : nat) (v : A) : nat -> A :=
@@ -194,13 +204,19 @@ Section Lock.
 
   Variable cfg : lcfg.
 
-  (* the test at the beginning of LockedEvent.trigger / _locked_method *)
-  Definition enter_call (ident tid : nat) (c : call) : act :=
-    if Nat.eqb ident tid then mkAct c (PRun (start c)) []
-    else match ctxs_of cfg c with
-         | [] => mkAct c (PRun (start c)) []
-         | todo => mkAct c (PAcq todo) []
+  (* the test at the beginning of LockedEvent.trigger / _locked_method; the context list is read from
+     the machine state at the same moment *)
+  Definition enter_call (ms : MS) (ident tid : nat) (c : call) : act :=
+    if Nat.eqb ident tid then mkAct c (PRun (start c)) [] []
+    else match ctxs_of cfg ms c with
+         | [] => mkAct c (PRun (start c)) [] []
+         | todo => mkAct c (PAcq todo) [] todo
          end.
+
+  (* does this entry leave the envelope? *)
+  Definition entry_bad (ms : MS) (ident tid : nat) (c : call) : bool :=
+    negb (Nat.eqb ident tid) &&
+    (match ctxs_of cfg ms c with [] => true | _ => false end || negb (ctx_nodupb (ctxs_of cfg ms c))).
 
   Definition after_acq (c : call) (todo : list ctx) : phase :=
     match todo with [] => PRun (start c) | _ => PAcq todo end.
@@ -208,7 +224,7 @@ Section Lock.
   (* what one step of an activation does to the activation itself *)
   Inductive outcome : Type :=
   | OStay (a : act)
-  | OPush (a : act) (b : act)
+  | OPush (a : act) (b : act) (bad : bool)
   | OComplete (r : R)
   | OBlocked.
 
@@ -217,26 +233,27 @@ Section Lock.
   Definition act_step (tid : nat) (a : act) (s : shared) : shared * outcome * list I :=
     let c := a_call a in
     match a_phase a with
-    | PAcq [] => (s, OStay (mkAct c (PRun (start c)) (a_held a)), [])
+    | PAcq [] => (s, OStay (mkAct c (PRun (start c)) (a_held a) (a_ctxs a)), [])
     | PAcq (CLock l :: todo) =>
         if Nat.eqb (sh_own s l) 0
         then (mkSh (sh_ms s) (upd (sh_own s) l tid) (sh_ident s) (sh_log s ++ [EvAcq tid (CLock l)]),
-              OStay (mkAct c (after_acq c todo) (CLock l :: a_held a)), [])
+              OStay (mkAct c (after_acq c todo) (CLock l :: a_held a) (a_ctxs a)), [])
         else (mkSh (sh_ms s) (sh_own s) (sh_ident s) (sh_log s ++ [EvBlocked tid (CLock l)]), OBlocked, [])
     | PAcq (CIdent :: todo) =>
         (mkSh (sh_ms s) (sh_own s) tid (sh_log s ++ [EvAcq tid CIdent]),
-         OStay (mkAct c (after_acq c todo) (CIdent :: a_held a)), [])
+         OStay (mkAct c (after_acq c todo) (CIdent :: a_held a) (a_ctxs a)), [])
     | PRun k =>
         match resume k (sh_ms s) with
         | (ms', its, st) =>
             let s' := mkSh ms' (sh_own s) (sh_ident s) (sh_log s ++ [EvSeg tid c its]) in
             match st with
-            | SMore k' => (s', OStay (mkAct c (PRun k') (a_held a)), its)
-            | SCall c' k' => (s', OPush (mkAct c (PRun k') (a_held a)) (enter_call (sh_ident s) tid c'), its)
+            | SMore k' => (s', OStay (mkAct c (PRun k') (a_held a) (a_ctxs a)), its)
+            | SCall c' k' => (s', OPush (mkAct c (PRun k') (a_held a) (a_ctxs a)) (enter_call ms' (sh_ident s) tid c')
+                                     (entry_bad ms' (sh_ident s) tid c'), its)
             | SDone r =>
                 match a_held a with
                 | [] => (mkSh ms' (sh_own s) (sh_ident s) (sh_log s' ++ [EvRet tid c r]), OComplete r, its)
-                | _ => (s', OStay (mkAct c (PRel r) (a_held a)), its)
+                | _ => (s', OStay (mkAct c (PRel r) (a_held a) (a_ctxs a)), its)
                 end
             end
         end
@@ -248,7 +265,7 @@ Section Lock.
             let id' := match x with CLock _ => sh_ident s | CIdent => 0 end in
             match h with
             | [] => (mkSh (sh_ms s) own' id' (sh_log s ++ [EvRel tid x; EvRet tid c r]), OComplete r, [])
-            | _ => (mkSh (sh_ms s) own' id' (sh_log s ++ [EvRel tid x]), OStay (mkAct c (PRel r) h), [])
+            | _ => (mkSh (sh_ms s) own' id' (sh_log s ++ [EvRel tid x]), OStay (mkAct c (PRel r) h (a_ctxs a)), [])
             end
         end
     end.
@@ -256,7 +273,7 @@ Section Lock.
   (* a nested call returned r: the caller's callback continues *)
   Definition deliver (a : act) (r : R) : act :=
     match a_phase a with
-    | PRun k => mkAct (a_call a) (PRun (ret k r)) (a_held a)
+    | PRun k => mkAct (a_call a) (PRun (ret k r)) (a_held a) (a_ctxs a)
     | _ => a
     end.
 
@@ -271,19 +288,19 @@ Section Lock.
     | top :: restn =>
         match act_step tid top s with
         | (s', o, its) =>
-            let mk := fun cur nest =>
+            let mk := fun cur nest bad =>
               mkG (sh_ms s') (sh_own s') (sh_ident s')
                   (upd (g_th g) tid (mkThread (t_prog th) cur nest (t_items th ++ its)))
-                  (sh_log s') (g_acq g) (g_done g) in
+                  (sh_log s') (g_acq g) (g_done g) (g_bad g || bad) in
             match o with
-            | OStay a' => mk (t_cur th) (a' :: restn)
-            | OPush a' b => mk (t_cur th) (b :: a' :: restn)
+            | OStay a' => mk (t_cur th) (a' :: restn) false
+            | OPush a' b bad => mk (t_cur th) (b :: a' :: restn) bad
             | OComplete r =>
                 match restn with
-                | p :: restn' => mk (t_cur th) (deliver p r :: restn')
-                | [] => mk (option_map (fun a => deliver a r) (t_cur th)) []
+                | p :: restn' => mk (t_cur th) (deliver p r :: restn') false
+                | [] => mk (option_map (fun a => deliver a r) (t_cur th)) [] false
                 end
-            | OBlocked => mk (t_cur th) (top :: restn)
+            | OBlocked => mk (t_cur th) (top :: restn) false
             end
         end
     | [] =>
@@ -292,10 +309,10 @@ Section Lock.
             match act_step tid a s with
             | (s', o, its) =>
                 let items' := t_items th ++ its in
-                let mk := fun cur nest items acq done =>
+                let mk := fun cur nest items acq done bad =>
                   mkG (sh_ms s') (sh_own s') (sh_ident s')
                       (upd (g_th g) tid (mkThread (t_prog th) cur nest items))
-                      (sh_log s') acq done in
+                      (sh_log s') acq done (g_bad g || bad) in
                 match o with
                 | OStay a' =>
                     mk (Some a') [] items'
@@ -303,15 +320,15 @@ Section Lock.
                        (match a_phase a, a_phase a' with
                         | PRun _, PRel r => g_done g ++ [mkDone tid (a_call a) r items']
                         | _, _ => g_done g
-                        end)
-                | OPush a' b => mk (Some a') [b] items' (g_acq g) (g_done g)
+                        end) false
+                | OPush a' b bad => mk (Some a') [b] items' (g_acq g) (g_done g) bad
                 | OComplete r =>
                     mk None [] items' (g_acq g)
                        (match a_phase a with
                         | PRun _ => g_done g ++ [mkDone tid (a_call a) r items']
                         | _ => g_done g
-                        end)
-                | OBlocked => mk (Some a) [] items' (g_acq g) (g_done g)
+                        end) false
+                | OBlocked => mk (Some a) [] items' (g_acq g) (g_done g) false
                 end
             end
         | None =>
@@ -319,8 +336,8 @@ Section Lock.
             | [] => g
             | c :: rest =>
                 mkG (g_ms g) (g_own g) (g_ident g)
-                    (upd (g_th g) tid (mkThread rest (Some (enter_call (g_ident g) tid c)) [] []))
-                    (g_log g) (g_acq g) (g_done g)
+                    (upd (g_th g) tid (mkThread rest (Some (enter_call (g_ms g) (g_ident g) tid c)) [] []))
+                    (g_log g) (g_acq g) (g_done g) (g_bad g || entry_bad (g_ms g) (g_ident g) tid c)
             end
         end
     end.
@@ -328,7 +345,7 @@ Section Lock.
   Definition run (sched : list nat) (g : gstate) : gstate := fold_left (fun g t => step t g) sched g.
 
   Definition init (progs : nat -> list call) (ms : MS) : gstate :=
-    mkG ms (fun _ => 0) 0 (fun t => mkThread (progs t) None [] []) [] [] [].
+    mkG ms (fun _ => 0) 0 (fun t => mkThread (progs t) None [] []) [] [] [] false.
 
   (* ------------------------------------------------------------------ observers used by the theorems *)
   Definition held (g : gstate) (t : nat) : list ctx :=
